@@ -168,6 +168,18 @@ func nhScenarioSnap(rec *nhRec, tid int, seed int64, smType string, store string
 				return
 			}
 			opt = SnapshotOption{Exported: true, ExportPath: dir}
+			// an export may carry compaction options as well; an exported snapshot is not recorded in
+			// the log store, nothing may be compacted on its account
+			if n, ok := nh.getShard(c.shard); ok && rng.Intn(2) == 0 {
+				if la := n.sm.GetLastApplied(); la > 2 {
+					opt.OverrideCompactionOverhead = true
+					if rng.Intn(3) == 0 {
+						opt.CompactionOverhead = uint64(rng.Intn(2))
+					} else {
+						opt.CompactionIndex = la - 1
+					}
+				}
+			}
 		}
 		func() {
 			defer func() { _ = recover() }()
